@@ -51,6 +51,9 @@ CLAIMED = {
     "C19": ("runtime monitoring: boundary recorder on entropy_regularized_policy_iteration and the planner wrapper, gated on `converged`; oracle = soft Bellman fixed-point clauses (one-step look-ahead, prior-weighted softmax, log-sum-exp) with tolerances derived from the coded convergence test, plus the quantitative hard/soft bracket against a reference value iteration",
             "Held-on-K-executions over generated tensors, weights (scalar / per-state), priors and flags. Exploration: all-inputs property.",
             "float64; weight tensor is float32 by construction (term 2*2^-24*max|q/w| in the tolerance)", "§4 C19"),
+    "C18": ("runtime monitoring: boundary recorder on TabularGridGame.next_state_dist/joint_rewards/is_terminal over all explored non-terminal states x all 25 joint actions of each generated layout, physical-constraint oracle computed from the generated layout; boundary recorder on DiscreteFactorTable &, |, *, marginalize, probs with a reference natural join on flattened nested rows",
+            "Held-on-K-executions; per layout the (explored state, joint action) space is enumerated completely in the thorough tier (capped in quick). Exploration overall: layouts and tables are sampled.",
+            "coordinates x=column, y=height-1-row (verified against the initial state); fences judged only for normalisation", "§4 C18"),
 }
 
 PENDING_REASON = "check not built yet in this round (design in DESIGN.md §4); not claimed until its monitor exists and is silent on the unchanged tree"
